@@ -676,17 +676,18 @@ def compare(inp, impl, model):
 
 
 def _key(mode, m):
-    v = Fraction(m)
+    v = float(m) if m in ("inf", "-inf") else Fraction(m)
     return v if mode == "min" else -v
 
 
-def check_top(below, got, mode):
+def check_top(below, got, mode, failed_ids=()):
     """is `got` (trial ids of the new rung) exactly the len(got) best entries of the completed
     rung `below` = [[tid, metric]…]?  Valid entries rank by metric (any order among equal
     metrics is accepted), failed ones (NaN) rank last.  Returns None or a description."""
     n = len(got)
-    valid = [(_key(mode, e[1]), e[0]) for e in below if e[1] != "nan"]
-    failed = [e[0] for e in below if e[1] == "nan"]
+    # (the workers of this stream report finite values only; whatever the slot of a failed job holds, it ranks last)
+    valid = [(_key(mode, e[1]), e[0]) for e in below if e[1] != "nan" and e[0] not in failed_ids]
+    failed = [e[0] for e in below if e[1] == "nan" or e[0] in failed_ids]
     ids = [e[0] for e in below if e[0] is not None]
     if len(ids) != len(set(ids)) or any(t is None for _, t in valid):
         return None  # reported by the distinctness clause
@@ -746,6 +747,7 @@ def monitor_c05(trace):
 
     seen_rungs = set()
     failed = set()
+    failed_slots = set()  # (bracket, rung index, trial): the job of that slot failed
     events = _in_contract(trace["events"])
     for ev in events:
         # no call raises (except the assertion against a training script skipping its rung level)
@@ -761,6 +763,8 @@ def monitor_c05(trace):
         # the next rung with failed trials when too few valid entries exist)
         if ev["ev"] == "error" and ev.get("was_pending"):
             failed.add(ev["trial"])  # (a paused trial cannot fail; such calls are ignored by the scheduler)
+            if ev.get("slot"):
+                failed_slots.add((ev["slot"][0], ev["slot"][1], ev["trial"]))
         if ev["ev"] == "resume" and ev["trial"] in failed:
             add("c05:failed-trial-promoted",
                 f"failed trial {ev['trial']} was promoted and is resumed to level {ev['level']} (bracket {ev['bracket']})", ev)
@@ -790,7 +794,7 @@ def monitor_c05(trace):
                         elif (b, k) not in seen_rungs:
                             seen_rungs.add((b, k))
                             got = [e[0] for e in content]
-                            why = check_top(below, got, mode)
+                            why = check_top(below, got, mode, {t_ for (b_, k_, t_) in failed_slots if b_ == b and k_ == k - 1})
                             if why is not None:
                                 add("c05:top-list", f"bracket {b}: rung {k} = {got} from rung below {below}: {why}", ev)
         # primary = least id of a bracket which is not complete
